@@ -166,6 +166,14 @@ def run_scenario(sc, base, fast=True, mode='each', real_passes=None, on_test=Non
         prepare(work)
     o.before = snapshot_dir(work)
     o.cwd_before = os.getcwd()
+    old_stdin = sys.stdin
+    if sc.get('keys'):
+        # keys typed by the user while C-Vise runs ('s' = skip the rest of this pass, 'd' = toggle diffs): the key logger is on
+        # and reads them from standard input
+        rfd, wfd = os.pipe()
+        os.write(wfd, sc['keys'].encode())
+        os.close(wfd)
+        sys.stdin = os.fdopen(rfd, 'r')
     orig_copyfile = shutil.copyfile
     if sc.get('copy_fault') is not None:
         # the k-th copy INTO a candidate / sanity folder writes part of the file and fails (ENOSPC on a full /tmp)
@@ -188,7 +196,7 @@ def run_scenario(sc, base, fast=True, mode='each', real_passes=None, on_test=Non
             o.shim = st
             stats = statistics.PassStatistic()
             try:
-                tm = testing.TestManager(stats, script, 10, cfg['save_temps'], names, cfg['N'], cfg['no_cache'], True,
+                tm = testing.TestManager(stats, script, 10, cfg['save_temps'], names, cfg['N'], cfg['no_cache'], not sc.get('keys'),
                                          cfg['silent'], cfg['die'], False, cfg['maximp'], cfg['nogiveup'], cfg['also'],
                                          (None if sc.get('start_with_key') is None else 'ScriptPass::%d' % sc['start_with_key']), cfg['skipn'], sc.get('stopping_threshold', 1.0))
             except Exception as e:
@@ -307,6 +315,12 @@ def run_scenario(sc, base, fast=True, mode='each', real_passes=None, on_test=Non
             o.stats = stats
     finally:
         shutil.copyfile = orig_copyfile
+        if sys.stdin is not old_stdin:
+            try:
+                sys.stdin.close()
+            except OSError:
+                pass
+            sys.stdin = old_stdin
         try:
             o.cwd_after = os.getcwd()
         except OSError:
